@@ -505,6 +505,18 @@ def scanUGather (e : Env) (si : SvcInfoFn) (nq : Nat) (hosts : List Nat) (ws : L
     (raises : Nat → Bool) : Option (List Cfg) :=
   if hosts.any raises then none else some (scanU e si nq hosts ws)
 
+/-- The multicast path assembles its answer AFTER all per-datagram handling:
+    `MulticastDnsSdClientProtocol.get_response` ends with
+    `[_to_response(r) for r in self.query_responses.values()]`, and `_to_response` calls
+    `parser.parse()` and `_get_model(services)` — outside `ReceiveDelegate`'s barrier.  If that step
+    raised for one source (`raises s`: e.g. `_get_model` indexing a `_device-info` TXT record that has
+    no `model`), `mdns.multicast` / `pyatv.scan()` would raise and no source's devices would be
+    returned.  `scanM` is this function under the fact that the pinned `_to_response` raises on no
+    record content (`properties.get("model")`, total `parse`); the harness drops / empties every key
+    the consumers of every service type read, on the real `pyatv.scan`. -/
+def scanMAssemble (e : Env) (si : SvcInfoFn) (ws : List WDgram) (raises : Nat → Bool) : Option (List Cfg) :=
+  if (mcastSources (ws.map decodeM)).any raises then none else some (scanM e si ws)
+
 /-- handled services of one multicast source / one unicast host -/
 def hdM (e : Env) (ws : List WDgram) (s : Nat) : List Hd := hdOf e (mcastResp e (ws.map decodeM) s)
 def hdU (e : Env) (nq : Nat) (ws : List WDgram) (h : Nat) : List Hd := hdOf e (ucastResp e nq (decodeU ws) h)
